@@ -834,7 +834,8 @@ def unit_cases(ctx, n):
             v = gen.pick(rng, ["utf-8''%e2%82%ac.txt", "nosuch''%41.txt", "nosuch''abc.txt", "utf-8'%41", "a'b'c'd", '', "''",
                                "utf-8'en'x", "iso-8859-1''%e9", "'''", "x"])
             v = gen.sanitize(gen.mutated(rng, v, 0.5)).strip()
-            if any(ch in v for ch in ';",\\') or '=?' in v or any(ord(ch) < 33 or 126 < ord(ch) < 161 for ch in v):
+            # (the value follows `filename*=`: a leading `?` would make `=?`, an RFC 2047 word the framework decodes first)
+            if any(ch in v for ch in ';",\\') or '=?' in ('=' + v) or any(ord(ch) < 33 or 126 < ord(ch) < 161 for ch in v):
                 continue
             enc = v.split("'")[0] if v.count("'") == 2 else 'utf-8'
             # the model knows two kinds of charset names: plain text codecs that honour errors='replace', and unknown ones
